@@ -302,13 +302,13 @@ def main(tier: str) -> int:
                      {"fn": "pool", "clause": "wiring"})
 
     # live runs with recording wrappers around the pool entries
-    def live(cls, sel, cx, mut, seed):
-        rec = {"sel": [], "x": [], "m": [], "evaluated": [], "pops": []}
+    def live(cls, sel, cx, mut, seed, P=P, parents_num=3):
+        rec = {"sel": [], "x": [], "m": [], "evaluated": [], "pops": [], "stale": []}
 
         def fit(x):
             rec["evaluated"].append(np.array(x).copy())
             return np.sum(x, axis=1, dtype=np.float64)
-        kw = dict(fitness_function=fit, iters=4, pop_size=P, str_len=L, tour_size=4, parents_num=3, mutation_rate=0.21, random_state=seed)
+        kw = dict(fitness_function=fit, iters=4, pop_size=P, str_len=L, tour_size=min(4, P), parents_num=parents_num, mutation_rate=0.21, random_state=seed)
         if cls is GeneticAlgorithm:
             kw.update(selection=sel, crossover=cx, mutation=mut)
         else:
@@ -328,6 +328,14 @@ def main(tier: str) -> int:
                         r = f(*a)
                         if key == "sel":
                             rec[key].append((name, int(a[2]), int(a[3]), len(r)))
+                            # the selection sees the scaled fitness and the ranks of the population the parents are taken FROM
+                            # (the end-of-generation population, elite included)
+                            cur = np.asarray(o._fitness_i, dtype=np.float64)
+                            span = cur.max() - cur.min()
+                            want_scale = (cur - cur.min()) / span if span > 0 else np.ones_like(cur)
+                            from scipy.stats import rankdata as _rk
+                            if not (np.allclose(np.asarray(a[0]), want_scale, rtol=1e-12, atol=1e-15) and np.array_equal(np.asarray(a[1]), _rk(cur))) and not rec["stale"]:
+                                rec["stale"].append({"fitness_now": cur.tolist(), "scaled_seen_by_selection": np.asarray(a[0]).tolist()})
                         elif key == "x":
                             rec[key].append((name, len(a[0]), len(r)))
                         else:
@@ -374,6 +382,25 @@ def main(tier: str) -> int:
                 if batch.shape != (P, L) or not np.isin(batch, (0, 1)).all():
                     chk.fail("an evaluated population is not pop_size rows of {0,1}^str_len", {**d, "shape": list(batch.shape)}, {"fn": "wiring", "clause": "binary"})
                     break
+            if rec["stale"]:
+                chk.fail("the selection is applied to fitness values that are not those of the population the parents are taken from",
+                         {**d, **rec["stale"][0]}, {"fn": "wiring", "clause": "selection_inputs"})
+    # a population smaller than the configured number of parents (parents are drawn with replacement)
+    for ci, (sel, cx, exp_q) in enumerate((("rank", "uniform_7", 7), ("proportional", "uniform_k", 9), ("tournament_3", "uniform_prop_7", 7), ("rank", "uniform_rank_k", 9))):
+        for cls in (GeneticAlgorithm, SelfCGA, PDPGA):
+            try:
+                rec = live(cls, sel, cx, "weak", chk.seed + 50 + ci, P=5, parents_num=9)
+            except Exception as e:
+                chk.fail("a configured operator combination raises", {"class": cls.__name__, "selection": sel, "crossover": cx, "pop_size": 5, "parents_num": 9, "error": repr(e)[:200]},
+                         {"fn": "wiring", "clause": "raises"})
+                continue
+            chk.count("live_small_pop_" + cls.__name__)
+            chk.case(("live_small", cls.__name__, sel, cx))
+            if any(q != exp_q or ln != exp_q for _, _, q, ln in rec["sel"]) or any(npar != exp_q for _, npar, _ in rec["x"]):
+                chk.fail("the configured crossover / parent count is not what is applied",
+                         {"class": cls.__name__, "selection": sel, "crossover": cx, "pop_size": 5, "parents_num": 9, "expected_parents": exp_q,
+                          "seen": sorted(set((q, ln) for _, _, q, ln in rec["sel"]))[:3] + sorted(set(npar for _, npar, _ in rec["x"]))[:3]},
+                         {"fn": "wiring", "clause": "crossover"})
     # SHAGA: tournament of size 2, binomialGA, flip_mutation; every individual binary
     import thefittest.optimizers._shaga as SH
     seen = {"t": [], "b": 0, "f": 0, "ev": []}
